@@ -91,3 +91,16 @@ Theorem C01_late_lock_is_handled : forall tr l o lits,
   is_true_in tr (VSol o) = true ->
   let w := create tr (mkCl (KLock l o) lits) in w_conflict w = true /\ w_assert w = Some (VSol o).
 Proof. exact late_lock_is_handled. Qed.
+
+(* ---- when Solver::decide (model: Cdcl/Decide.v, compared with the
+   implementation at every call) proposes nothing, the search is over for a
+   reason: every requirement of every installed solvable has an installed
+   candidate (or no candidate at all, in which case its clause is an assertion) ---- *)
+From Resolvo Require Import Cdcl.DecideProofs.
+
+Theorem C01_decide_complete : forall U act_ge pa db,
+  (forall c, In c db -> req_wf U c = true) ->
+  decide U act_ge db pa = Some None ->
+  forall c p r cands, In c db -> ck c = KRequires p r cands -> lit_istrue pa (p, true) = true ->
+  concat cands = [] \/ exists x, In x (concat cands) /\ pval pa (VSol x) = Some true.
+Proof. exact decide_complete. Qed.
